@@ -90,6 +90,13 @@ NestedToks(shape, arm) ==
     [] shape = 3 -> <<"a", "?">> \o arm \o <<":", "c", "+", "d", "?", "e", ":", "a">>          \* in the else arm, after an operator
     [] shape = 4 -> <<"f", "(", "a", "?">> \o arm \o <<":", "c", "?", "d", ":", "e", ")">>     \* inside a call
     [] shape = 5 -> <<"x", "+", "a", "?">> \o arm \o <<":", "-", "c", "?", "d", ":", "e">>
+    \* the inner ternary inside an argument list, an array literal or a hash literal written in an arm
+    [] shape = 6 -> <<"a", "?", "f", "(", "b", "?", "c", ":", "d", ")", ":", "e">>
+    [] shape = 7 -> <<"a", "?", "b", ":", "f", "(", "c", "?", "d", ":", "e", ")">>
+    [] shape = 8 -> <<"a", "?", "g", "(", "x", ",", "b", "?", "c", ":", "d", ")", ":", "e">>
+    [] shape = 9 -> <<"a", "?", "[", "b", "?", "c", ":", "d", "]", ":", "e">>
+    [] shape = 10 -> <<"a", "?", "{", "\"k\"", ":", "b", "?", "c", ":", "d", "}", ":", "e">>
+    [] shape = 11 -> <<"a", "?", "b", ":", "x", "[", "c", "?", "d", ":", "e", "]">>
 NestedRow(shape, a) == [k |-> "nested", tree |-> <<"none">>, min |-> NestedToks(shape, ArmStarts[a]), full |-> <<>>, leafy |-> <<>>,
                         stmt |-> "reject", done |-> TRUE]
 AsgOps == <<"=", "+=", "-=", "*=", "/=">>
@@ -101,7 +108,7 @@ Init ==
   \/ /\ Tier = "thorough"
      /\ \E o1 \in 1..NB, o2 \in 1..NB : row = [k |-> "quad0", o1 |-> o1, o2 |-> o2, done |-> FALSE]
   \/ \E a \in 1..Len(AsgOps) : row = [k |-> "asg0", op |-> AsgOps[a], done |-> FALSE]
-  \/ \E sh \in 1..5 : row = [k |-> "nest0", sh |-> sh, done |-> FALSE]
+  \/ \E sh \in 1..11 : row = [k |-> "nest0", sh |-> sh, done |-> FALSE]
 
 Next ==
   /\ ~row.done
@@ -117,7 +124,7 @@ Next ==
              /\ \E t \in AllTrees(<<BinOpList[row.o1], BinOpList[row.o2], BinOpList[o3], BinOpList[o4]>>, <<A, B, C, D, E5>>) :
                   row' = MkRow("quad", t)
      \/ /\ row.k = "nest0"
-        /\ \E a \in 1..Len(ArmStarts) : row' = NestedRow(row.sh, a)
+        /\ \E a \in 1..Len(ArmStarts) : (row.sh <= 5 \/ a = 1) /\ row' = NestedRow(row.sh, a)
      \/ /\ row.k = "mixed0"
         /\ \E o \in 1..NB, u \in 1..NP : row' = MkRow("mixed", Mixed(row.m, BinOpList[o], PrefixOps[u]))
      \/ /\ row.k = "asg0"
